@@ -37,9 +37,11 @@ META = {
     "rule": "seeded acyclic module graphs of 2-7 files (Lua modules returning tables/functions/strings/numbers/booleans, "
             "json/json5/yaml/toml/txt data files) with shared and diamond dependencies, several relative spellings of a "
             "file, requires in 18 syntactic positions, identically named locals, excludes, skipped call forms, x require "
-            "mode {path, luau} x generator {readable, dense, retain_lines} x optional rule pipeline; plus every digraph "
+            "mode {path, luau} x generator {readable, dense, retain_lines} x optional rule pipeline; the same relative "
+            "literal written in different directories where it denotes different files (plain, init-folder and entry "
+            "requirers; with/without extension, folder modules, `../`); plus every digraph "
             "on 2-3 (thorough: 4) files for the error side, and defect injections (missing file, syntax error, two "
-            "return values, no return, malformed data). A behaviour case is non-trivial when the reference run gives "
+            "or three return values, no return, bare `return`, return inside a final do block, malformed data). A behaviour case is non-trivial when the reference run gives "
             "a verdict and some module is required from two places or from a nested position; distinct by project text",
     "assumptions": ["whole-program link not proved: wrapper_miss/wrapper_once take the run of the module body and the frame "
                     "conditions on the store it leaves (modules table, cache table and the fresh box untouched) as "
@@ -332,6 +334,15 @@ def behaviour_stream(ctx, rnd, n_random, proofs_ok):
         proj = G.gen_project(rnd)
         proj["mode_object"] = rnd.random() < 0.3
         add(proj, GENERATORS[i % 3], rnd.choice(PIPELINES), rnd.choice([None, None, "__M", "Bundle_1"]), "ordinary")
+    # the same relative literal in different directories denoting different files
+    k = 0
+    for variant in G.TWIN_VARIANTS:
+        for mode in ("path", "luau"):
+            proj = G.twin_project(rnd, mode, variant)
+            if proj is None:
+                continue
+            k += 1
+            add(proj, GENERATORS[k % 3], rnd.choice([[], [], ["rename_variables"], ["remove_unused_variable"]]), None, "ordinary")
     # the two recorded deviations, a few witnesses each (fixed seeds so that the key names something reproducible)
     wrnd = random.Random(20250925)
     for i in range(4):
@@ -508,7 +519,8 @@ def defect_stream(ctx, rnd):
     pid = 0
     for n, adj in DEFECT_SHAPES:
         for node in range(1, n):
-            kinds = [("missing", node), ("syntax", node), ("two", node), ("noreturn", node)]
+            kinds = [("missing", node), ("syntax", node), ("two", node), ("three", node), ("noreturn", node), ("bare", node),
+                     ("bare-semicolon", node), ("doreturn", node)]
             if not adj[node]:
                 kinds += [("baddata", node, f) for f in ("json", "json5", "yaml", "toml")]
             for d in kinds:
@@ -537,7 +549,8 @@ def defect_stream(ctx, rnd):
                           key=KEY_DATA_ERR if d[0] == "baddata" else "defect-message:%s" % d[0])
     cases, cidx = model_cases(projects, results)
     bad = C.run_coq_cases(ctx.prop, SHAPE_PREAMBLE, cases, chunk=200, tag="defects")
-    ctx.stream("missing file / syntax error / two values / no return / malformed data at every node of 5 graph shapes: "
+    ctx.stream("missing file / syntax error / 2 or 3 values / no return / bare `return` / return inside a final do / "
+               "malformed data at every node of 5 graph shapes: "
                "an error naming the file, and the model's error list", len(cases), len(cases), [],
                named=named, mismatches=len(bad))
     return [(cidx[k], d) for k, d in bad], projects, results
